@@ -180,12 +180,20 @@ class HedGroup:
             else:
                 group_list.append((child, child._sorted(update_self)))
 
-        tag_list.sort(key=lambda x: str(x[0]))
-        group_list.sort(key=lambda x: str(x[0]))
+        # Tags compare equal regardless of letter case, and groups regardless of the order of their members,
+        # so the sort keys must not depend on either; otherwise equal items need not end up adjacent.
+        tag_list.sort(key=lambda x: (str(x[0]).casefold(), str(x[0])))
+        group_list.sort(key=lambda x: (HedGroup._sorted_key(x[1]), str(x[0])))
         output_list = tag_list + group_list
         if update_self:
             self.children = [x[0] for x in output_list]
         return [x[1] for x in output_list]
+
+    @staticmethod
+    def _sorted_key(sorted_children):
+        """ Return a string key for the nested list returned by _sorted (case folded, members already sorted). """
+        return "(" + ",".join(str(child).casefold() if isinstance(child, HedTag) else HedGroup._sorted_key(child)
+                              for child in sorted_children) + ")"
 
     @property
     def is_group(self):
